@@ -10,6 +10,7 @@ import WD.Proofs.Debouncer
 import WD.Proofs.Restart
 import WD.Proofs.Restart.Helpers
 import WD.Proofs.Restart.Spawns
+import WD.Proofs.Restart.Debs
 import WD.Proofs.Shell
 namespace WD.C18
 open WD.Deb WD.ProofsDeb
@@ -137,6 +138,31 @@ theorem watchers_stopped_after_stop (tid t : Nat)
       ProofsRst.isWatcher th.kind = true → th.stopFlag = true :=
   ProofsRst.watchers_stopped cfg lifetimes rscripts ras tid t h
 
+/-- all helper threads gone, the debouncer: once the working stop() has returned, every EventDebouncer thread the trick
+    ever started has ENDED (stop() joined it) - for every script of start() / event / stop() calls on any number of
+    threads, start() after stop(), racing it, or called twice included: start() creates its debouncer under the stopping
+    lock, never while the trick is stopping and never a second one (repaired defect D16); and at any time there is at
+    most one debouncer thread, the one the trick refers to -/
+theorem debouncer_gone_after_stop (tid t : Nat)
+    (h : Rst.Obs.stopRet tid t ∈ (Rst.run (Rst.init cfg lifetimes rscripts) ras).hist)
+    (j : Nat) (th : Rst.Thread) (hth : (Rst.run (Rst.init cfg lifetimes rscripts) ras).threads[j]? = some th)
+    (hk : th.kind = .deb) : th.pc = .done :=
+  (ProofsRst.debouncer_gone cfg lifetimes rscripts ras).1 tid t h j th hth (by rw [hk]; rfl)
+
+theorem one_debouncer (j : Nat) (th : Rst.Thread)
+    (hth : (Rst.run (Rst.init cfg lifetimes rscripts) ras).threads[j]? = some th) (hk : th.kind = .deb) :
+    (Rst.run (Rst.init cfg lifetimes rscripts) ras).debTid = some j :=
+  (ProofsRst.debouncer_gone cfg lifetimes rscripts ras).2 j th hth (by rw [hk]; rfl)
+
+/-- non-vacuity: start() with a debouncer, stop(), then start() again: the second start() creates nothing -/
+example :
+    let s := Rst.run (Rst.init { interval := 200, killAfter := 1000, killDelay := 0, restartOnExit := false } [none, none]
+        [[.start, .stop, .start]])
+      [.step 0, .step 0, .step 0, .step 0, .step 0, .step 0, .step 0, .step 1, .step 1, .step 0, .step 0, .step 0, .step 0, .step 0, .step 0]
+    (s.hist.any fun o => match o with | .stopRet _ _ => true | _ => false) = true ∧ s.threads.length = 2 ∧
+    (s.threads.map (·.pc)) = [.done, .done] := by
+  decide +kernel
+
 /-- a watcher that has been told to stop is not blocked in its poll loop: it can take its next step, and that step ends it -/
 theorem stopped_watcher_ends (s : Rst.State) (j : Nat) (th : Rst.Thread) (hth : s.threads[j]? = some th)
     (hf : th.stopFlag = true) (dl : Nat) (hpc : th.pc = .wWait dl) :
@@ -148,7 +174,7 @@ theorem stopped_watcher_ends (s : Rst.State) (j : Nat) (th : Rst.Thread) (hth : 
 example :
     let s := Rst.run (Rst.init { interval := 0, killAfter := 1000, killDelay := 300, restartOnExit := true } [none, none]
         [[.start, .event, .stop]])
-      [.step 0, .step 0, .step 0, .step 0, .step 0, .tick 250, .step 0, .tick 250, .step 0, .step 0,
+      [.step 0, .step 0, .step 0, .step 0, .step 0, .step 0, .tick 250, .step 0, .tick 250, .step 0, .step 0,
        .step 0, .step 0, .step 0, .tick 250, .step 0, .tick 250, .step 0, .step 1, .step 2, .step 0, .step 0]
     s.procs.length = 2 ∧ s.aliveList = [] ∧ (s.hist.any fun o => match o with | .stopRet _ _ => true | _ => false) = true := by
   decide +kernel
